@@ -1,25 +1,29 @@
 #!/bin/bash
 # tools/sensitivity.sh [patch files...]   (default: mutants/*.patch seeded/*/patch.diff)
-# Applies each change to /repo, rebuilds lzsim, runs the quick check of every
-# property named in the patch header ("# props: ..." or seeded/<id>/meta.json),
-# records which checks notice it, and ALWAYS restores /repo afterwards.
-# Evidence and replay files of these runs go to a scratch directory, not /verif.
+# Sensitivity runs happen entirely in scratch copies: a git worktree of /repo's HEAD
+# and a copy of /verif/sim whose path dependency points at that worktree. Each
+# change is applied there, lzsim is rebuilt, and the quick check of every property
+# named in the patch header ("# props: ...") or in seeded/<id>/meta.json
+# ("check_with") is run. /repo and /verif/evidence are never touched.
+# Env: SENS_ALL=1 run all 18 checks per change; SENS_SUITE=1 also run the pinned
+# test suite with the change; SENS_OUT=<file> also write the table there.
 set -u
 V=/verif
-OUT=$(mktemp -d /tmp/sens.XXXXXX)
-mkdir -p "$OUT"
-cp $V/KNOWN_FINDINGS.json "$OUT/"
-restore() { git -C /repo checkout -q -- . ; }
-trap 'restore; rm -rf "$OUT"' EXIT
-ARGS=()
-for a in "$@"; do ARGS+=("$(readlink -f "$a")"); done
-cd $V/sim
-export CARGO_NET_OFFLINE=true
+S=$(mktemp -d /tmp/sens.XXXXXX)
+cleanup() { git -C /repo worktree remove --force "$S/repo" >/dev/null 2>&1; rm -rf "$S"; }
+trap cleanup EXIT
+ARGS=(); for a in "$@"; do ARGS+=("$(readlink -f "$a")"); done
 if [ ${#ARGS[@]} -eq 0 ]; then ARGS=($V/mutants/*.patch $V/seeded/*/patch.diff); fi
-set -- "${ARGS[@]}"
-ALL="${SENS_ALL:-0}"
-printf "%-44s %-8s %s\n" "change" "suite" "checks (id:exit)"
-for p in "$@"; do
+git -C /repo worktree add -q --detach "$S/repo" HEAD || exit 2
+mkdir -p "$S/out" && cp $V/KNOWN_FINDINGS.json "$S/out/"
+rsync -a --exclude target $V/sim/ "$S/sim/"
+sed -i "s#path = \"/repo\"#path = \"$S/repo\"#" "$S/sim/Cargo.toml"
+cd "$S/sim"
+export CARGO_NET_OFFLINE=true
+emit() { echo "$1"; [ -n "${SENS_OUT:-}" ] && echo "$1" >> "$SENS_OUT"; }
+[ -n "${SENS_OUT:-}" ] && : > "$SENS_OUT"
+emit "$(printf '%-46s %-8s %s' 'change' 'suite' 'checks (id:exit(violation class))')"
+for p in "${ARGS[@]}"; do
   [ -f "$p" ] || continue
   name=$(basename "$p" .patch); [ "$name" = "patch.diff" ] && name="seeded/$(basename $(dirname "$p"))"
   if [ -f "$(dirname "$p")/meta.json" ]; then
@@ -27,25 +31,22 @@ for p in "$@"; do
   else
     props=$(grep -m1 '^# props:' "$p" | sed 's/# props://')
   fi
-  [ "$ALL" = "1" ] && props="C01 C02 C03 C04 C05 C06 C07 C08 C09 C10 C11 C12 C13 C14 C15 C16 C17 C18"
-  restore
-  if ! grep -v '^#' "$p" | git -C /repo apply - 2>/dev/null; then printf "%-44s %s\n" "$name" "PATCH-DOES-NOT-APPLY"; continue; fi
+  [ "${SENS_ALL:-0}" = "1" ] && props="C01 C02 C03 C04 C05 C06 C07 C08 C09 C10 C11 C12 C13 C14 C15 C16 C17 C18"
+  git -C "$S/repo" checkout -q -- .
+  if ! grep -v '^#' "$p" | git -C "$S/repo" apply - 2>/dev/null; then emit "$(printf '%-46s %s' "$name" 'PATCH-DOES-NOT-APPLY')"; continue; fi
   if ! cargo build --offline --profile checked >/dev/null 2>&1 || ! cargo build --offline --release >/dev/null 2>&1; then
-    printf "%-44s %s\n" "$name" "DOES-NOT-COMPILE"; restore; continue
+    emit "$(printf '%-46s %s' "$name" 'DOES-NOT-COMPILE')"; continue
   fi
   suite="-"
   if [ "${SENS_SUITE:-0}" = "1" ]; then
-    if (cd /repo && cargo test --workspace --no-fail-fast --offline >/dev/null 2>&1); then suite="passes"; else suite="FAILS"; fi
+    if (cd "$S/repo" && cargo test --workspace --no-fail-fast --offline >/dev/null 2>&1); then suite="passes"; else suite="FAILS"; fi
   fi
   res=""
   for id in $props; do
-    ./target/checked/lzsim check --property $id --tier quick --verif-dir "$OUT" >"$OUT/log" 2>&1
+    ./target/checked/lzsim check --property $id --tier quick --verif-dir "$S/out" >"$S/out/log" 2>&1
     e=$?
-    cls=$(grep -m1 '^violation:' "$OUT/log" | sed 's/violation: class=\([a-z_]*\).*/\1/')
+    cls=$(grep -m1 '^violation:' "$S/out/log" | sed 's/violation: class=\([a-z_]*\).*/\1/')
     res="$res $id:$e${cls:+($cls)}"
   done
-  printf "%-44s %-8s%s\n" "$name" "$suite" "$res"
-  restore
+  emit "$(printf '%-46s %-8s%s' "$name" "$suite" "$res")"
 done
-restore
-cargo build --offline --profile checked >/dev/null 2>&1; cargo build --offline --release >/dev/null 2>&1
